@@ -99,6 +99,21 @@ def split(t: str) -> tuple[str, list[str]]:
 	return head, parts
 
 
+def top_level_alternatives(t: str) -> list[str]:
+	parts, depth, cur = [], 0, ''
+	for ch in t:
+		if ch == '<':
+			depth += 1
+		elif ch == '>':
+			depth -= 1
+		if ch == '|' and depth == 0:
+			parts.append(cur)
+			cur = ''
+		else:
+			cur += ch
+	return parts + [cur]
+
+
 BASES: dict[str, str] = {}   # class -> base class of the program under judgement
 
 
@@ -112,6 +127,9 @@ def unify(static: str, runtime: str) -> bool:
 		if base == static:
 			return True
 		base = BASES.get(base)
+	alts = top_level_alternatives(runtime)
+	if len(alts) > 1:
+		return all(unify(static, x) for x in alts)  # a join of several observed values: every one of them must be admitted
 	if '|' in runtime and 'T_G' not in static:
 		return False
 	hs, is_ = split(static)
